@@ -222,7 +222,8 @@ def ref_apply(val: RefVal, op, scen: Scenario, marker_has_sort: bool | None = No
             eng=val.eng,
         )
     if k == "join":
-        _, operand, pred, reverse = op
+        _, operand, pred, reverse = op[:4]
+        fixed_common = op[4] if len(op) > 4 else None
         other = scen_operand(val, operand, scen)
         lhs, rhs = (other, val) if reverse else (val, other)
         errs = set()
@@ -238,6 +239,11 @@ def ref_apply(val: RefVal, op, scen: Scenario, marker_has_sort: bool | None = No
         if errs:
             raise RefReject(errs, "join")
         common = sorted(c for c in lhs.cols & rhs.cols if A.is_key(c))
+        if fixed_common is not None:
+            # join whose common columns were resolved earlier (a PartialJoin handed back by commute())
+            if not (set(fixed_common) <= lhs.cols and set(fixed_common) <= rhs.cols):
+                raise RefReject({"ColumnError"}, "join: resolved common columns missing")
+            common = sorted(fixed_common)
         shared_other = sorted((lhs.cols & rhs.cols) - set(common))
         out = []
         for lr in lhs.rows:
